@@ -24,6 +24,22 @@ def chars_compared_with_first(f, pname):
     return out
 
 
+def at_most_one(rc, sized=True):
+    """Branch facts that imply `count <= 1` for some counter (x.size() when sized, a plain integer local otherwise)."""
+    import re
+    out = []
+    pat = r'^(\w+)\.size\(\) (<|<=|>|>=) (\d+)$' if sized else r'^(\w+) (<|<=|>|>=) (\d+)$'
+    for c, t in rc:
+        m = re.match(pat, c)
+        if not m:
+            continue
+        op, k = m.group(2), int(m.group(3))
+        le1 = (t and ((op == '<' and k <= 2) or (op == '<=' and k <= 1))) or ((not t) and ((op == '>=' and k <= 2) or (op == '>' and k <= 1)))
+        if le1:
+            out.append(m.group(1))
+    return out
+
+
 def derives_from_(f, c, m):
     from engines import derives_from
     return derives_from(f, c, m)
@@ -66,38 +82,41 @@ def run(F, rep):
     rep.check(ds == set('0123456789'), 'C16.G1', 'isEuropeanNumericCharacter|digits', digit.where(), 'digit set is %s' % sorted(ds), 'digit set 0-9')
     # the sign is only stripped when present at position 0, and only once
     er = [m for m in basic.walk() if m.get('k') == 'Call' and m.get('fn') == 'erase' and render(nth_arg(m, 0)) == '0']
-    ok = len(er) == 1 and any(render(c) == 'beginsMinus' and t for c, t in (ff(basic).conds_at(er[0]) or []))
+    def _is_minus_test(c):
+        srcs = [c] + _srcs(basic, c)
+        return any(x.get('k') == 'Bin' and x.get('op') == '==' and any(y.get('k') == 'Char' and y.get('v') == ord('-') for y in x['c']) and '.begin()' in render(x) for e in srcs for x in walk(e))
+    ok = len(er) == 1 and any(t and _is_minus_test(c) for c, t in (ff(basic).conds_at(er[0]) or []))
     rep.check(ok, 'C16.G1', 'isCellMLBasicReal|sign-stripped-once', basic.where(), 'the leading sign is not stripped exactly once under the sign test', 'one erase(0,1) under beginsMinus')
-    # decimal point: findOccurrences(candidate, ".") with bound < 2 guarding the all_of
+    # decimal point: findOccurrences(candidate, ".") and at most one occurrence where the all-digits verdict is given
     occ = [m for m in basic.walk() if is_call(m, 'findOccurrences')]
     lits = {x.get('v') for m in occ for x in walk(m) if x.get('k') == 'Str'}
-    allof = [m for m in basic.walk() if m.get('k') == 'Call' and m.get('callee') == 'std::all_of']
-    if not allof:
-        raise AnalysisBroken('isCellMLBasicReal no longer ends in std::all_of')
-    rc = ff(basic).rendered_conds_at(allof[0]) or set()
-    bound = [(c, t) for c, t in rc if 'ccurrences.size()' in c and '<' in c]
-    rep.check(lits == {'.'} and bound == [('decimalOccurrences.size() < 2', True)], 'C16.G1', 'isCellMLBasicReal|decimal-point', basic.where(),
-              'decimal point handling: searched %s, bound facts %s (grammar: at most one ".")' % (sorted(lits), bound), 'at most one "."')
-    # the all_of predicate is the digit test
-    pred = render(allof[0]['c'][2]) if len(allof[0]['c']) > 2 else ''
-    rep.check(pred == 'isEuropeanNumericCharacter', 'C16.G1', 'isCellMLBasicReal|digit-predicate', basic.where(), 'all_of predicate is `%s`' % pred, 'all_of(isEuropeanNumericCharacter)')
-    allof2 = [m for m in nonneg.walk() if m.get('k') == 'Call' and m.get('callee') == 'std::all_of']
-    pred2 = render(allof2[0]['c'][2]) if allof2 and len(allof2[0]['c']) > 2 else ''
-    rep.check(pred2 == 'isEuropeanNumericCharacter', 'C16.G1', 'isNonNegativeCellMLInteger|digit-predicate', nonneg.where(), 'all_of predicate is `%s`' % pred2, 'all_of(isEuropeanNumericCharacter)')
+    verd = list(exc.string_verdicts(basic))
+    if not verd:
+        raise AnalysisBroken('isCellMLBasicReal no longer ends in an all-digits verdict (std::all_of or the equivalent loop)')
+    rc = ff(basic).rendered_conds_at(verd[0][0]) or set()
+    bound = at_most_one(rc)
+    rep.check(lits == {'.'} and bool(bound), 'C16.G1', 'isCellMLBasicReal|decimal-point', basic.where(),
+              'decimal point handling: searched %s, count facts at the verdict %s (grammar: at most one ".")' % (sorted(lits), sorted(c for c, t in rc if '.size()' in c)), 'at most one "."')
+    # the verdict is the digit test
+    pred = verd[0][2]
+    rep.check(pred == 'isEuropeanNumericCharacter', 'C16.G1', 'isCellMLBasicReal|digit-predicate', basic.where(), 'the all-characters predicate is `%s`' % pred, 'every character isEuropeanNumericCharacter')
+    verd2 = list(exc.string_verdicts(nonneg))
+    pred2 = verd2[0][2] if verd2 else ''
+    rep.check(pred2 == 'isEuropeanNumericCharacter', 'C16.G1', 'isNonNegativeCellMLInteger|digit-predicate', nonneg.where(), 'the all-characters predicate is `%s`' % pred2, 'every character isEuropeanNumericCharacter')
     # integer: the signed form strips exactly one character and both forms end in the non-negative recogniser
     rets = [render(r['c'][0]).replace(', npos', '').replace(', std::string::npos', '') for r in integer.walk() if r.get('k') == 'Return' and r.get('c')]
     rep.check(sorted(rets) == ['isNonNegativeCellMLInteger(candidate)', 'isNonNegativeCellMLInteger(candidate.substr(1))'], 'C16.G1', 'isCellMLInteger|shape', integer.where(),
               'isCellMLInteger returns %s' % rets, 'sign stripped with substr(1), digits checked by isNonNegativeCellMLInteger')
     # real: e/E markers, count bound, parts
     occ = [m for m in real.walk() if is_call(m, 'findOccurrences')]
-    lits = {x.get('v') for m in occ for x in walk(m) if x.get('k') == 'Str'}
+    lits = {str(x.get('v')).strip('"') for x in real.walk() if x.get('k') == 'Str' and str(x.get('v')).strip('"') in ('e', 'E')} | {chr(x['v']) for x in real.walk() if x.get('k') == 'Char' and isinstance(x.get('v'), int) and chr(x['v']) in 'eE'}
     rep.check(lits == {'E', 'e'}, 'C16.G1', 'isCellMLReal|exponent-markers', real.where(), 'exponent markers searched: %s' % sorted(lits), 'markers {e,E}')
     parts = [m for m in real.walk() if m.get('k') == 'Call' and m.get('fn') in ('isCellMLBasicReal', 'isCellMLExponent')]
     okb = True
     det = []
     for m in parts:
         rc = ff(real).rendered_conds_at(m) or set()
-        if ('eIndicatorCount < 2', True) not in rc:
+        if not at_most_one(rc, sized=False):
             okb = False
             det.append('%s not under eIndicatorCount < 2' % render(m))
     sig = [m for m in parts if m['fn'] == 'isCellMLBasicReal']
